@@ -182,6 +182,9 @@ def build():
          call_ensures=[], replay_seeds={"time_string": ["-1", "2", "+3", "1.5s", "100ms", "-2.5"]})
 
     C.finite_checks.append(common.native_demo_check(
+        'c12_time_strings_one_ms_short.py',
+        'time strings evaluate to value times unit also for decimal fractions (2.01s = 2010 ms)'))
+    C.finite_checks.append(common.native_demo_check(
         "c12_nan_passes_range_check.py", "nan is rejected by every ranged numeric validator (float / num / int ranges)"))
     # ---- list normalisation of non-string items (the split of real strings is not modelled)
     for fn_ in ("string_to_list", "string_to_event_list"):
